@@ -48,9 +48,11 @@ IndentOK == \A k \in 1..Len(out) :
 
 \* every explicit newline of the input starts a new output line: the first word of every input
 \* line but the first is the first word on its output line
-NewlineOK == \A L \in 2..Len(inp) :
-                RealWords(inp[L]) # <<>> =>
-                   \E k \in 1..Len(out) : out[k].ws # <<>> /\ OutBefore[k] = InBefore[L]
+\* (LET: TLC evaluates the sums once per state instead of once per use)
+NewlineOK == LET ob == OutBefore
+                 ib == InBefore
+                 starts == {ob[k] : k \in {j \in 1..Len(out) : out[j].ws # <<>>}}   \* words before each line start
+             IN \A L \in 2..Len(inp) : RealWords(inp[L]) # <<>> => ib[L] \in starts
 
 \* A word may be regarded as sitting on the continuation line of a list entry (two more blanks)
 \* when a word starting with a dash opened an output line of the same input line before it: at
@@ -59,13 +61,15 @@ MaybeList(L, j) == \E i \in 1..(j-1) : /\ inp[L][i].dash /\ ~inp[L][i].nn
                                        /\ (i = 1 \/ inp[L][i-1].nn)
 \* "a single word that cannot fit": alone on its line, and too long for the room behind the
 \* indentation (+2 on a list continuation line)
-Excuse(k) == /\ Len(out[k].ws) = 1
-             /\ OutBefore[k] + 1 <= Len(InPos)
-             /\ LET p == InPos[OutBefore[k] + 1]
-                    w == out[k].ws[1]
-                IN \/ cfg.indent + w.len > cfg.width
-                   \/ MaybeList(p.L, p.j) /\ cfg.indent + 2 + w.len > cfg.width
-WidthOK == \A k \in 1..Len(out) : out[k].len <= cfg.width \/ Excuse(k)
+Excuse(k, ob, pos) == /\ Len(out[k].ws) = 1
+                      /\ ob[k] + 1 <= Len(pos)
+                      /\ LET p == pos[ob[k] + 1]
+                             w == out[k].ws[1]
+                         IN \/ cfg.indent + w.len > cfg.width
+                            \/ MaybeList(p.L, p.j) /\ cfg.indent + 2 + w.len > cfg.width
+WidthOK == LET ob == OutBefore
+               pos == InPos
+           IN \A k \in 1..Len(out) : out[k].len <= cfg.width \/ Excuse(k, ob, pos)
 
 DeclOK == WordsOK /\ IndentOK /\ NewlineOK /\ WidthOK
 
